@@ -100,6 +100,8 @@ pub fn stmts() -> ZooLang {
             "a+if(b);", "a*let(b);", "a+fn(b);", "f(else);", "$a; %b;", "$ if;", "a ~x + b; ~y", "let ~p a = ~q 1;", "{ ~a }", "~", "~ let",
             // an operand, then extras, then the token that decides how the operand is reduced
             "a + 1 ~b;", "a + 1 /*c*/;", "a + 1 ~b ~c ;", "a + 1 #c\n;",
+            // ... with a HEAP-allocated extra (a comment over two lines, a long one) on top of the operand
+            "a + 1 /*c\nd*/;", "f(a) /*c\nd*/ ;", "{ a; /*c\nd*/ }", "a + 1 # a comment that is rather long .................................................................................................................................................................................................................................................................\n;",
             // an extra directly in front of a child that carries a per-production alias (named and anonymous aliases)
             "a /*c*/ ... b;", "a #c\n... b;", "a ~x ... b;", "let /*c*/ a = 1;", "$ /*c*/ a; % ~x b;", "& a;", "& /*c*/ a; & ~x b; & #c\n c;", "a .. /*c*/ b ... /*d*/ c;",
             // shadowing: a parameter, a let in the function's block and a let in an inner block share one name
@@ -459,11 +461,13 @@ pub fn tagl() -> ZooLang {
         .extras(vec![pat("\\s"), sym("comment"), sym("block_comment")]);
     ZooLang {
         name: "tagl", spec: spec(g, None),
-        lexemes: vec!["fn", "class", "let", "f", "é", "skip", "(", ")", "{", "}", ";", ",", "# d\n", "\n", " ", "/*é*/", "\\", "=>"],
+        lexemes: vec!["fn", "class", "let", "f", "é", "skip", "(", ")", "{", "}", ";", ",", "# d\n", "\n", " ", "/*é*/", "\\", "=>", "/*a\nb*/\n"],
         seeds: vec![
             "", "fn f() {}", "# doc\nfn f(a, b) { a(); g(b); }", "class C { fn m() { m(); } }", "f(); g(x, y);", "let f; f(); g();", "fn f(x) { x(); y(); } x();",
             "# one\n# two\nfn f() {}", "# far\n\nfn f() {}", "skip(); f(); skip();", "fn é() { é(); } /*😀*/ naïve(); /*é*/ f();", "fn f( {", "f(;", "fn f() { let g; g(); { g(); } } g();",
             "f(); g(); h(); i();", "  f();\r\n  g();\r\n",
+            // a doc chain through a comment that spans several rows
+            "# intro\n/*first\n second*/\nfn f() {}", "# a\n/*b\nc\nd*/\n# e\nfn g() {}", "/*x\ny*/\n\nfn h() {}", "# far\n\n/*b\nc*/\nfn i() {}",
             "\\x => x", "\\x => y", "fn f(a) { \\b => a \\c => c }", "let x; \\y => x", "\\x => x f(); x();", "{ let g; \\h => g }", "\\f => f\n",
         ],
         skippable: b" \t\r\n", has_scanner: false,
